@@ -25,14 +25,16 @@ from ..symx import SymExec, Opaque
 TOPO = "wntr/metrics/topographic.py"
 
 EXPLANATION = (
-    "Structural clauses of valve segmentation in wntr/metrics/topographic.py: (R-C18-1) CFG dominance: every store of the running label counter "
-    "into the label array is dominated by an increment of the counter, which is initialised to 0 (labels are positive); copies of an existing "
-    "label are listed, not decided; (R-C18-2) def-use: the returned segment_size derives from value_counts of both returned series; (R-C18-3) "
-    "row addressing: every .loc/.at/.iloc/.iat access to the valve layer in valve_segment_attributes' helpers uses an index variable whose "
-    "source (the layer's index vs a range of positions) matches the accessor, and the per-valve result is keyed by the valve number; (R-C18-4) "
-    "symbolic path enumeration of the three criticality helpers: the stored value is 0 on every path where node-side and link-side labels are "
-    "equal, and valve_segment_attributes passes its arguments in each helper's parameter order. The partition itself (reachability without "
-    "passing a valve on every multigraph) is NOT decided.")
+    "Structural clauses (T1) of valve segmentation in wntr/metrics/topographic.py: (R-C18-1) CFG dominance: every store of the running label counter into the "
+    "label array is dominated by an increment of the counter, which is initialised to 0 (labels are positive); copies of an existing label are listed, not "
+    "decided; (R-C18-2) name-based, flow-insensitive def-use (that nothing is rebound after counting is judged by line number): the returned segment_size "
+    "derives from value_counts of both returned series; (R-C18-3) row addressing, an AST pattern match on how the loop iterable is spelled (a closed list of "
+    "spellings, anything else is an analysis error; the parameter must be named valve_layer): every .loc/.at/.iloc/.iat access to the valve layer in "
+    "valve_segment_attributes' helpers uses an index variable whose source (the layer's index vs a range of positions) matches the accessor, and the per-valve "
+    "result is keyed by the valve number; (R-C18-4) T2, symbolic path enumeration of the three criticality helpers: the stored value is 0 on the path where "
+    "node-side and link-side labels are equal (that path is selected by a substring match on the path-condition text: `==`, node_segments[, link_segments[; "
+    "first such test and last store only), and (AST match of call arguments against parameter names) valve_segment_attributes passes its arguments in each "
+    "helper's parameter order. The partition itself (reachability without passing a valve on every multigraph) is NOT decided.")
 RULE_TEXT = "one instance = one label store, one size input, one row access, one same-segment path or one helper call binding"
 ASSUMPTIONS = ["that the labelling is the partition induced by the valve layer (graph reachability at run time) is not decided by any rule of this check",
                "R-C18-1 does not decide that a COPIED label (link takes the label of its node) is non-zero; it lists those stores"]
